@@ -177,6 +177,29 @@ def analyse(ch, ctx, st, pre, run_key):
     ctx.count('split_pots', len(winners) > 1)
     ctx.notes['shape'] = (n, winners, tuple(str(s) for s in share))
     names_all = [h.__name__ for h in hand_types]
+    # ---- another caller's calculation interleaved with this one (fault interleaved_call) ---------------------------------
+    # While the executor is half-way through the tasks of this calculation, a second calculation - the same players with
+    # their hole cards passed round by one seat - is run to completion in the same process (as a second thread sharing the
+    # pool would).  Both must come out as they do alone.
+    if n >= 2 and ch.chance('c18.interleave', 1, 2):
+        holes_b = holes[1:] + holes[:1]
+        boot.set_run_key(f'{run_key}-ilv-b')
+        alone_b = calculate_equities([[h] for h in holes_b], board, hc, bc, deck, hand_types, sample_count=3, executor=None)
+        inner = {}
+
+        def other_caller():
+            inner['eq'] = calculate_equities([[h] for h in holes_b], board, hc, bc, deck, hand_types, sample_count=3,
+                                             executor=SimExecutor(ch, ctx, label='exec.inner'))
+        boot.set_run_key(f'{run_key}-ilv-a')
+        eq_a = calculate_equities(ranges, board, hc, bc, deck, hand_types, sample_count=6,
+                                  executor=SimExecutor(ch, ctx, interleave=other_caller))
+        ctx.count('interleaved_calculations')
+        if any(abs(a - b) > TOL for a, b in zip(eq_a, results[0])):
+            raise Violation('C18.interleave', f'with another calculation interleaved the equities are {eq_a}, alone {results[0]} '
+                            f'(holes {holes}, board {board})', rule='interleave')
+        if 'eq' in inner and any(abs(a - b) > TOL for a, b in zip(inner['eq'], alone_b)):
+            raise Violation('C18.interleave', f'the interleaved calculation itself gives {inner["eq"]}, alone {alone_b} '
+                            f'(holes {holes_b}, board {board})', rule='interleave')
     # ---- the same cards split differently between hand and board (fault: evaluation order / stale state) -----------------
     # One of player 0's hole cards changes places with a board card: every player's hole+board card SET is unchanged or
     # nearly so, the hands are not.  Expected shares come from the settlement model with ref/evalhand.py, not from a hand.
